@@ -17,7 +17,7 @@ UNITS = {
     "ebpf_c":  dict(engine="cbmc", serves=["C06"], path="c/ebpf", kind="CBMC function contracts (goto-instrument --dfcc) on the unmodified linux-ebpf/ebpf_cgroup.c against a contract-level model of the BPF helpers; gcc replay of counterexamples"),
     "ebpf_rs": dict(engine="kani", serves=["C06"], path="kani/ebpf_rs", kind="Kani full-domain harnesses over the real ebpf_obj.rs (#[path]) and byte-for-byte extracted redirector items; layout table shared with the C side"),
     "authorizer": dict(engine="verus", serves=["C03", "C11", "C01", "C13"]),
-    "redirect": dict(engine="verus", serves=["C09", "C06"]),
+    "redirect": dict(engine="verus", serves=["C09", "C06", "C13"]),
 }
 
 PROPERTIES = {
@@ -178,7 +178,7 @@ PROPERTIES["C15"] = dict(
 )
 
 PROPERTIES["C13"] = dict(
-    units=["panics", "panic_bytes", "handler", "provision", "telemetry", "disk", "sign", "keykeeper", "authz", "authorizer", "conn", "actors", "keystore"],
+    units=["panics", "panic_bytes", "handler", "provision", "telemetry", "disk", "sign", "keykeeper", "authz", "authorizer", "conn", "actors", "keystore", "redirect"],
     technique="Verus' own safety obligations (str/String slicing on a char boundary, String::truncate, index, arithmetic overflow, unwrap/stub preconditions) on every function under contract; Kani for the byte-level UTF-16 slice",
     level_text='For the functions under contract (listed in the evidence; not the whole program): Verus discharges for all inputs that no slice/truncate is off a char boundary (event_logger::write_event, AgentStatusSharedState::get_module_status, ProxyServer::log_connection_summary after the fixes), no arithmetic overflow, no out-of-range index and no failing stub precondition in the request handler, provisioning, telemetry and logging units; Kani checks the UTF-16 frame conversion of read_response_body for every frame of up to 5 bytes (bounded companion, not counted as proved).',
     level_note="Partial claim: only the functions under contract; panics inside dependencies, the accept loop, main and Windows code are not covered. UTF-8 byte model of String (utf8_len/char_boundary, linked to vstd's by trusted axioms). 'Display does not panic' axioms per displayed type. Known C13-labelled preconditions in other units (headers_to_canonicalized_string value is visible ASCII; key keeper sleep arithmetic) are reported by those units.",
@@ -229,9 +229,9 @@ PROPERTIES["C08"] = dict(
 )
 PROPERTIES["C09"] = dict(
     units=["keykeeper", "actors", "redirect"],
-    technique="Verus contracts on the extracted real functions: exact functional specs of KeyStatus accessors/validate; abstract key-keeper state threaded (E4) through one-message wrapper stubs under a single-writer census; composite wrappers proved from them; postconditions of the loop_poll slice (E5) and of the notified arm; pure convergence lemmas; actor arms (unit actors)",
-    level_text="Deductive proof (Verus/Z3) of the inductive step for every prior state and every status document: validate Ok iff the document is valid; get_secure_channel_state/get_*_mode/get_*_rules/get_*_rule_id equal the spec functions written from the statement and field comments (1.0/2.0); in the verbatim loop-body tail a failed or invalid status makes no mutating call and changes nothing; otherwise each endpoint's rule id becomes the document's and its rules compute(document rules) iff the id changed, and after a complete iteration state == document state, disabled => no key (invariant preserved), enabled => the key is the host-named or just-attested one, redirect policy updated iff the state text changed with flag mode != disabled per endpoint; lemma: for every state satisfying I and a host-consistent document the resulting rules are a function of the document alone and I is preserved.",
-    level_note="Trusted: one-message actor wrapper contracts (arms: unit actors); single-writer census; host contract (rule id determines content, empty id = no rules) and key-store naming invariant as explicit hypotheses; get_status body (only its validate tail verified); to_lowercase uninterpreted; format! literal stub; AuthorizationItem::clone equal. Clauses about actor state hold for iterations without an actor-call Err. Not covered: liveness/timing, the loop and select! around the slice (only the state-reset block of the notified arm), redirector internals (C06). Redirect updates are keyed on the state text: with the 2.0 channel disabled or undocumented mode words, later mode changes are not propagated (lemma states exactly when they are).",
+    technique="Verus contracts on the extracted real functions: exact functional specs of KeyStatus accessors/validate; abstract key-keeper state threaded (E4) through one-message wrapper stubs under a single-writer census; composite wrappers proved from them; postconditions of the loop_poll slice (E5) and of the notified arm; pure convergence lemmas; actor arms and the set_*_rules wrappers over a ghost channel trace (unit actors); update_*_redirect_policy over a ghost record of BpfObject::update_redirect_policy calls (unit redirect)",
+    level_text="Deductive proof (Verus/Z3) of the inductive step for every prior state and every status document: validate Ok iff the document is valid; get_secure_channel_state/get_*_mode/get_*_rules/get_*_rule_id equal the spec functions written from the statement and field comments (1.0/2.0); in the verbatim loop-body tail a failed or invalid status makes no mutating call and changes nothing; otherwise each endpoint's rule id becomes the document's and its rules compute(document rules) iff the id changed, and after a complete iteration state == document state, disabled => no key (invariant preserved), enabled => the key is the host-named or just-attested one, redirect policy updated iff the state text changed with flag mode != disabled per endpoint; lemma: for every state satisfying I and a host-consistent document the resulting rules are a function of the document alone and I is preserved. Proved on the real bodies instead of assumed (units actors, redirect): set_{wireserver,imds,hostga}_rules each send exactly ONE actor message, of their OWN variant, carrying rules.map(from_authorization_item) (= computed_opt(rules)), and return Ok only after the actor answered that message; the Set*Rules arms store exactly the carried value in their own slot and answer; update_{wire_server,imds,hostga}_redirect_policy each call BpfObject::update_redirect_policy exactly once with THEIR endpoint's address and port (168.63.129.16:80, 169.254.169.254:80, 168.63.129.16:32526, written from the documentation and compared with the code's constants), the local port the redirector actor holds and the flag given, and make no call when the actor holds no BPF object or an actor request fails; the redirector actor's Get/Set arms and its one-message wrappers are under contract too.",
+    level_note="Trusted: the reading of `one answered message of variant V` as `one atomic operation on the abstract actor state` (unit keykeeper's stub contracts; wrappers, arms and the message carried are proved in unit actors, the dispatch loop itself and tokio's channel semantics are assumed); from_authorization_item only named here (computed; its contract is C02, unit authz); what one BpfObject::update_redirect_policy call does to the BPF map is C06 (Kani, kani/ebpf_rs), recorded here as a ghost call record; the redirector actor's locals are not havocked between the two reads of one update (set_local_port/update_bpf_object/clear_bpf_object only in redirector start/close; no census); BpfObject mutex not poisoned; little-endian host for the address constants; single-writer census; host contract (rule id determines content, empty id = no rules) and key-store naming invariant as explicit hypotheses; get_status body (only its validate tail verified); to_lowercase uninterpreted; format! literal stub; AuthorizationItem::clone equal. Clauses about actor state hold for iterations without an actor-call Err. Not covered: liveness/timing, the loop and select! around the slice (only the state-reset block of the notified arm), BpfObject::update_redirect_policy itself (C06). An update made while the redirector actor holds no BPF object (or whose actor request fails) is silently dropped: update_*_redirect_policy return () and log nothing, and the poll does not retry until the state text changes again. Redirect updates are keyed on the state text: with the 2.0 channel disabled or undocumented mode words, later mode changes are not propagated (lemma states exactly when they are).",
     design_ref="DESIGN.md section 3 C09",
     assumptions=[],
 )
